@@ -87,11 +87,11 @@ def layerBNames : List String :=
 
 /-- the corner-trick entries (auto-margin terminals with `ich1` and no way to switch auto-margin off) Layer B is proved for:
     the class `CornerLike` -/
-def cornerNames : List String := ["cygwin"]
+def cornerNames : List String := ["beterm", "cygwin", "sun", "sun-color"]
 
 /-- the entries outside both classes, by reason -/
 def cornerTrickNames : List String := ["beterm", "cygwin", "sun", "sun-color"]
-def cornerOutsideNames : List String := ["beterm", "sun", "sun-color"]
+def cornerOutsideNames : List String := []
 def nonEcmaNames : List String := ["hpterm", "vt52", "wy50", "wy60"]
 
 set_option maxRecDepth 100000 in
@@ -648,8 +648,11 @@ theorem cup_accepted_all (hx : XtermLike rc.ti = true) (ff : Bool) (x y : Nat)
 
 /-! ### the hypotheses are satisfiable -/
 
-/-- a freshly initialised emulator is `Quiet` for every terminal description: no hyperlink active, cursor visible -/
-theorem quiet_init (rc : RenderCfg) (cfg : Config) : Quiet rc (Term.init cfg) := ⟨fun _ => ⟨rfl, rfl⟩, fun _ => rfl⟩
+/-- a freshly initialised emulator is `Quiet` for every terminal description: no hyperlink active, cursor visible — provided it
+is configured to clear on FF where the description's `clear` is FF -/
+theorem quiet_init (rc : RenderCfg) (cfg : Config)
+    (hff : Tcell.Spec.TermCaps.stripPadding rc.ti.clear = [12] → cfg.ffClears = true) : Quiet rc (Term.init cfg) :=
+  ⟨fun _ => ⟨rfl, rfl⟩, fun _ => rfl, hff⟩
 
 example : SizeOk 80 24 := by unfold SizeOk TParm.maxInt64; omega
 example : Good rwClip (Term.init { w := 80, h := 24, rw := rwClip }) := ⟨rfl, rfl, rfl, rfl, rfl, rfl, rfl, rfl⟩
@@ -693,7 +696,7 @@ theorem opsDemo_ok : ∀ op ∈ opsDemo, op.Valid dcDemo ∧ OpB dcDemo op := by
 /-- every hypothesis of `db_show_faithful_bytes` holds for this world -/
 example : DisplaysBytes dcDemo rcDemo bDemo :=
   db_show_faithful_bytes Gen.e44 e44_mem e44_name true false true false _ _ (fun h => absurd h (by decide)) fitDemo 4 2
-    (by unfold SizeOk TParm.maxInt64; omega) e0Demo ⟨rfl, rfl, rfl, rfl, rfl, rfl, rfl, rfl⟩ (quiet_init _ _) rfl rfl opsDemo
+    (by unfold SizeOk TParm.maxInt64; omega) e0Demo ⟨rfl, rfl, rfl, rfl, rfl, rfl, rfl, rfl⟩ (quiet_init _ _ (by decide +kernel)) rfl rfl opsDemo
     opsDemo_ok (Or.inl (by decide +kernel))
 
 set_option maxRecDepth 100000 in
@@ -747,7 +750,7 @@ theorem opsVt_ok : ∀ op ∈ opsVt, op.Valid dcVt ∧ OpB dcVt op := by
 
 example : DisplaysBytes dcVt rcVt bVt :=
   db_show_faithful_bytes Gen.e31 e31_mem e31_name true false true false _ _ (fun h => absurd h (by decide)) fitVt 4 2
-    (by unfold SizeOk TParm.maxInt64; omega) e0Demo ⟨rfl, rfl, rfl, rfl, rfl, rfl, rfl, rfl⟩ (quiet_init _ _) rfl rfl opsVt
+    (by unfold SizeOk TParm.maxInt64; omega) e0Demo ⟨rfl, rfl, rfl, rfl, rfl, rfl, rfl, rfl⟩ (quiet_init _ _ (by decide +kernel)) rfl rfl opsVt
     opsVt_ok (Or.inl (by decide +kernel))
 
 set_option maxRecDepth 100000 in
@@ -765,8 +768,9 @@ example : (bVt.e.grid.get 0 0).runes = [0x4e16] ∧
 /-! ### the corner trick at the level of bytes: cygwin -/
 
 set_option maxRecDepth 100000 in
-/-- of the four corner-trick entries, cygwin is the one all of whose strings are in the class (`CapsOk`); its `ich1` is `CSI @` -/
-theorem db_corner_caps : (Gen.db.all fun e => (CapsOk e && !XtermLike e) == (e.name == "cygwin")) = true ∧
+/-- the entries whose strings are in the class (`CapsOk`) but which are not `XtermLike` are exactly the four corner-trick entries (since
+the class admits `op` spelled as a full SGR reset, a missing `smul` and `clear` = FF: all four, not only cygwin); cygwin's `ich1` is `CSI @` -/
+theorem db_corner_caps : (Gen.db.all fun e => (CapsOk e && !XtermLike e) == cornerNames.contains e.name) = true ∧
     Gen.e05.name = "cygwin" ∧ CapsOk Gen.e05 = true ∧ Tcell.Spec.TermCaps.stripPadding Gen.e05.insertChar = [27, 91, 64] := by
   decide +kernel
 
@@ -814,7 +818,7 @@ theorem opsCyg_safe : World.SafeRun dcCyg (World.init 4 2) (opsCyg ++ [.show]) :
 /-- every hypothesis of `db_show_faithful_bytes_corner` holds for this world -/
 example : DisplaysBytes dcCyg rcCyg bCyg :=
   db_show_faithful_bytes_corner Gen.e05 e05_mem e05_name true false true false _ _ (fun h => absurd h (by decide)) fitCyg 4 2
-    (by unfold SizeOk TParm.maxInt64; omega) e0Demo ⟨rfl, rfl, rfl, rfl, rfl, rfl, rfl, rfl⟩ (quiet_init _ _) rfl rfl opsCyg
+    (by unfold SizeOk TParm.maxInt64; omega) e0Demo ⟨rfl, rfl, rfl, rfl, rfl, rfl, rfl, rfl⟩ (quiet_init _ _ (by decide +kernel)) rfl rfl opsCyg
     opsCyg_ok opsCyg_safe (Or.inl (by decide +kernel))
 
 set_option maxRecDepth 100000 in
@@ -845,7 +849,7 @@ theorem opsCyg2_safe : World.SafeRun dcCyg (World.init 4 2) (opsCyg2 ++ [.show])
 
 example : DisplaysBytes dcCyg rcCyg bCyg2 :=
   db_show_faithful_bytes_corner Gen.e05 e05_mem e05_name true false true false _ _ (fun h => absurd h (by decide)) fitCyg 4 2
-    (by unfold SizeOk TParm.maxInt64; omega) e0Demo ⟨rfl, rfl, rfl, rfl, rfl, rfl, rfl, rfl⟩ (quiet_init _ _) rfl rfl opsCyg2
+    (by unfold SizeOk TParm.maxInt64; omega) e0Demo ⟨rfl, rfl, rfl, rfl, rfl, rfl, rfl, rfl⟩ (quiet_init _ _ (by decide +kernel)) rfl rfl opsCyg2
     opsCyg2_ok opsCyg2_safe (Or.inl (by decide +kernel))
 
 set_option maxRecDepth 100000 in
@@ -864,8 +868,112 @@ example : (bCyg2.e.grid.get 3 1).runes = [0x79] ∧ (bCyg2.e.grid.get 3 1).pen =
 /-- Sync on the same history: every hypothesis of `db_sync_faithful_bytes_corner` holds -/
 example : DisplaysBytes dcCyg rcCyg ((after dcCyg rcCyg 4 2 e0Demo opsCyg2).step dcCyg rcCyg .sync) :=
   db_sync_faithful_bytes_corner Gen.e05 e05_mem e05_name true false true false _ _ (fun h => absurd h (by decide)) fitCyg 4 2
-    (by unfold SizeOk TParm.maxInt64; omega) e0Demo ⟨rfl, rfl, rfl, rfl, rfl, rfl, rfl, rfl⟩ (quiet_init _ _) rfl rfl opsCyg2
+    (by unfold SizeOk TParm.maxInt64; omega) e0Demo ⟨rfl, rfl, rfl, rfl, rfl, rfl, rfl, rfl⟩ (quiet_init _ _ (by decide +kernel)) rfl rfl opsCyg2
     opsCyg2_ok ⟨trivial, trivial, cornerSafe_of_B (by decide +kernel), trivial, cornerSafe_of_B (by decide +kernel), trivial⟩
+
+/-! ### non-vacuity for the forms admitted for the other corner-trick entries: sun (`clear` = FF, monochrome, no `smul`),
+sun-color (`op` = `CSI 0 m`, `38;5;n` palette strings, no `setfgbg`), beterm (`op` = `CSI m`) -/
+
+def rcSun : RenderCfg := renderCfgOf Gen.e27 false (fun _ => 0) (fun _ => Render.colorWhite)
+def dcSun : DrawCfg := drawCfgOf Gen.e27 true false true
+/-- an emulator that clears on FF, as a Sun console does -/
+def e0Sun : Term := Term.init { w := 4, h := 2, rw := rwClip, ffClears := true }
+/-- reverse video, underlined: the description has no `smul`, so no underline is shown (`ulStyleOf`) -/
+def stSun : Style := { ulStyle := 1, attrs := 4 }
+def opsSun : List ScrOp := [.setContent 0 0 0x61 [] {}, .setContent 3 1 0x78 [] stSun]
+/-- Sync: clearScreen writes FF -/
+def bSun : BWorld := (after dcSun rcSun 4 2 e0Sun opsSun).step dcSun rcSun .sync
+
+theorem e27_mem : Gen.e27 ∈ Gen.db := by simp [Gen.db]
+theorem e27_name : Gen.e27.name ∈ cornerNames := by decide
+theorem fitSun : FitOk rcSun := fun h => absurd (by decide) h
+
+theorem opsSun_ok : ∀ op ∈ opsSun, op.Valid dcSun ∧ OpB dcSun op := by
+  intro op hop
+  simp only [opsSun, List.mem_cons, List.not_mem_nil, or_false] at hop
+  rcases hop with rfl | rfl
+  · exact ⟨by simp [ScrOp.Valid, attrInvalid], by simp, rfl⟩
+  · exact ⟨by simp [ScrOp.Valid, attrInvalid, stSun], by simp, rfl⟩
+
+example : DisplaysBytes dcSun rcSun bSun :=
+  db_sync_faithful_bytes_corner Gen.e27 e27_mem e27_name true false true false _ _ (fun h => absurd h (by decide)) fitSun 4 2
+    (by unfold SizeOk TParm.maxInt64; omega) e0Sun ⟨rfl, rfl, rfl, rfl, rfl, rfl, rfl, rfl⟩ (quiet_init _ _ (fun _ => rfl)) rfl rfl opsSun
+    opsSun_ok ⟨trivial, trivial, cornerSafe_of_B (by decide +kernel), trivial⟩
+
+set_option maxRecDepth 100000 in
+/-- … the grid after the FF and the repaint: reverse video without underline in the bottom-right cell, `a` at home, blanks elsewhere, no
+complaint; `clearScreen` wrote `CSI m` and FF and nothing else.  On an emulator that does NOT clear on FF the same bytes are rejected (the
+hypothesis `Quiet.ff` is needed). -/
+example : dcSun.cornerTrick = true ∧
+    (bSun.e.grid.get 3 1).runes = [0x78] ∧ (bSun.e.grid.get 3 1).pen = { reverse := true } ∧
+    (bSun.e.grid.get 3 1).pen = penOf rcSun stSun ∧ (bSun.e.grid.get 3 1).garbage = false ∧
+    (bSun.e.grid.get 0 0).runes = [0x61] ∧ (bSun.e.grid.get 1 0).runes = [32] ∧ (bSun.e.grid.get 1 0).garbage = false ∧
+    bSun.e.pendingWrap = false ∧ bSun.e.malformed = [] ∧
+    Render.render rcSun (.clear {}) = [27, 91, 109, 12] ∧
+    ((after dcSun rcSun 4 2 e0Demo opsSun).step dcSun rcSun .sync).e.malformed ≠ [] := by decide +kernel
+
+def rcSunC : RenderCfg := renderCfgOf Gen.e28 false (fun _ => 2^32 + 17) (fun _ => 2^32)
+def dcSunC : DrawCfg := drawCfgOf Gen.e28 true false true
+/-- `ColorReset` foreground (so `op` = `CSI 0 m` is written) on palette colour 200, bold -/
+def stSunC : Style := { fg := colorReset, bg := 2^32 + 200, attrs := 1 }
+def opsSunC : List ScrOp := [.setContent 3 1 0x78 [] stSunC]
+def bSunC : BWorld := (after dcSunC rcSunC 4 2 e0Sun opsSunC).step dcSunC rcSunC .show
+
+theorem e28_mem : Gen.e28 ∈ Gen.db := by simp [Gen.db]
+theorem e28_name : Gen.e28.name ∈ cornerNames := by decide
+theorem fitSunC : FitOk rcSunC := by
+  intro _ col
+  have : Render.nColors rcSunC = 256 := by decide
+  have e : rcSunC.fit col = 2^32 + 17 := rfl
+  rw [this, e]; omega
+
+theorem opsSunC_ok : ∀ op ∈ opsSunC, op.Valid dcSunC ∧ OpB dcSunC op := by
+  intro op hop
+  simp only [opsSunC, List.mem_cons, List.not_mem_nil, or_false] at hop
+  subst hop
+  exact ⟨by simp [ScrOp.Valid, attrInvalid, stSunC], by simp, rfl⟩
+
+example : DisplaysBytes dcSunC rcSunC bSunC :=
+  db_show_faithful_bytes_corner Gen.e28 e28_mem e28_name true false true false _ _ (fun h => absurd h (by decide)) fitSunC 4 2
+    (by unfold SizeOk TParm.maxInt64; omega) e0Sun ⟨rfl, rfl, rfl, rfl, rfl, rfl, rfl, rfl⟩ (quiet_init _ _ (fun _ => rfl)) rfl rfl opsSunC
+    opsSunC_ok ⟨trivial, cornerSafe_of_B (by decide +kernel), trivial⟩ (Or.inl (by decide +kernel))
+
+set_option maxRecDepth 100000 in
+example : (bSunC.e.grid.get 3 1).runes = [0x78] ∧ (bSunC.e.grid.get 3 1).pen = { bg := .idx 200, bold := true } ∧
+    (bSunC.e.grid.get 3 1).pen = penOf rcSunC stSunC ∧ (bSunC.e.grid.get 3 1).garbage = false ∧ bSunC.e.malformed = [] ∧
+    Render.render rcSunC (.setPen stSunC) = [27,91,109, 27,91,48,109, 27,91,52,56,59,53,59,50,48,48,109, 27,91,49,109] := by
+  decide +kernel
+
+def rcBe : RenderCfg := renderCfgOf Gen.e04 false (fun _ => 2^32) (fun _ => 2^32)
+def dcBe : DrawCfg := drawCfgOf Gen.e04 true false true
+/-- red on `ColorReset` (so `op` = `CSI m` is written), bold, reverse -/
+def stBe : Style := { fg := 2^32 + 1, bg := colorReset, attrs := 5 }
+def opsBe : List ScrOp := [.setContent 3 1 0x78 [] stBe]
+def bBe : BWorld := (after dcBe rcBe 4 2 e0Demo opsBe).step dcBe rcBe .show
+
+theorem e04_mem : Gen.e04 ∈ Gen.db := by simp [Gen.db]
+theorem e04_name : Gen.e04.name ∈ cornerNames := by decide
+theorem fitBe : FitOk rcBe := by
+  intro _ col
+  have : Render.nColors rcBe = 8 := by decide
+  have e : rcBe.fit col = 2^32 := rfl
+  rw [this, e]; omega
+
+theorem opsBe_ok : ∀ op ∈ opsBe, op.Valid dcBe ∧ OpB dcBe op := by
+  intro op hop
+  simp only [opsBe, List.mem_cons, List.not_mem_nil, or_false] at hop
+  subst hop
+  exact ⟨by simp [ScrOp.Valid, attrInvalid, stBe], by simp, rfl⟩
+
+example : DisplaysBytes dcBe rcBe bBe :=
+  db_show_faithful_bytes_corner Gen.e04 e04_mem e04_name true false true false _ _ (fun h => absurd h (by decide)) fitBe 4 2
+    (by unfold SizeOk TParm.maxInt64; omega) e0Demo ⟨rfl, rfl, rfl, rfl, rfl, rfl, rfl, rfl⟩ (quiet_init _ _ (by decide +kernel)) rfl rfl opsBe
+    opsBe_ok ⟨trivial, cornerSafe_of_B (by decide +kernel), trivial⟩ (Or.inl (by decide +kernel))
+
+set_option maxRecDepth 100000 in
+example : (bBe.e.grid.get 3 1).runes = [0x78] ∧ (bBe.e.grid.get 3 1).pen = { fg := .idx 1, bold := true, reverse := true } ∧
+    (bBe.e.grid.get 3 1).pen = penOf rcBe stBe ∧ (bBe.e.grid.get 3 1).garbage = false ∧ bBe.e.malformed = [] := by
+  decide +kernel
 
 /-- aixterm: `op` (`CSI 32 m CSI 40 m`) sets green on black, and `penOf` says so: a style with `ColorReset` as foreground -/
 def rcAix : RenderCfg := renderCfgOf Gen.e00 false (fun _ => 2^32) (fun _ => 2^32)
